@@ -22,6 +22,8 @@ pub enum Op {
     Truncate(u64),
     Reopen,
     Sync,
+    /// a read between writes (reads must not disturb later appends)
+    Retrieve(u64),
 }
 
 #[derive(Clone, Debug, Serialize, Deserialize, PartialEq, Eq, Hash)]
@@ -104,6 +106,11 @@ struct Outcome {
     /// a crash-free disagreement with the reference list
     problem: Option<(String, String)>,
     last_is_append: bool,
+    /// hidden in-memory state the disk image cannot show: the most recent read since the last
+    /// mutating operation (file handles cached by the freezer share their cursor)
+    pending_read: Option<u64>,
+    /// in-memory state of the live object (verif hook), part of the state fingerprint
+    mem: (u64, u32, u64, u64, u32, Vec<u32>),
 }
 
 /// Replays `hist` on a fresh directory with the real FreezerFiles; checks every return value
@@ -128,10 +135,13 @@ fn replay_files(dir: &Path, compression: bool, hist: &[Op]) -> Outcome {
                 reference,
                 problem: Some(("crashfree-open".into(), format!("initial open failed: {e}"))),
                 last_is_append: false,
+                pending_read: None,
+                mem: Default::default(),
             };
         }
     };
     let mut mark = mark_of(&read_disk(dir));
+    let mut last_read: Option<u64> = None;
     for (step, op) in hist.iter().enumerate() {
         match *op {
             Op::Append(size) => {
@@ -160,13 +170,24 @@ fn replay_files(dir: &Path, compression: bool, hist: &[Op]) -> Outcome {
                 }
                 mark = mark_of(&read_disk(dir));
             }
+            Op::Retrieve(k) => {
+                match files.retrieve(k) {
+                    Ok(Some(got)) if (k as usize) <= reference.len() && k >= 1 && got == reference[k as usize - 1] => {}
+                    Ok(None) if k < 1 || (k as usize) > reference.len() => {}
+                    other => {
+                        problem.get_or_insert(("crashfree-retrieve".into(), format!("step {step}: retrieve({k}) = {:?}", other.map(|o| o.map(|b| hex(&b))).map_err(|e| e.to_string()))));
+                        break;
+                    }
+                }
+                last_read = Some(k);
+            }
             Op::Reopen => {
                 drop(files);
                 files = match open() {
                     Ok(f) => f,
                     Err(e) => {
                         problem.get_or_insert(("crashfree-reopen".into(), format!("step {step}: reopen failed: {e}")));
-                        return Outcome { disk: read_disk(dir), mark, reference, problem, last_is_append: false };
+                        return Outcome { disk: read_disk(dir), mark, reference, problem, last_is_append: false, pending_read: None, mem: Default::default() };
                     }
                 };
                 mark = mark_of(&read_disk(dir));
@@ -195,15 +216,26 @@ fn replay_files(dir: &Path, compression: bool, hist: &[Op]) -> Outcome {
         if problem.is_some() {
             break;
         }
+        // the checker's own reads must not hide read-after-effects: leave the object as the
+        // history left it by repeating the history's most recent read (if it is still valid)
+        if let (Op::Retrieve(_), Some(k)) = (op, last_read) {
+            let _ = files.retrieve(k);
+        }
     }
+    let mem = files.verif_state();
     drop(files);
     let disk = read_disk(dir);
     Outcome {
+        mem,
         disk,
         mark,
         reference,
         problem,
         last_is_append: matches!(hist.last(), Some(Op::Append(_))),
+        pending_read: match hist.last() {
+            Some(Op::Retrieve(k)) => Some(*k),
+            _ => None,
+        },
     }
 }
 
@@ -359,6 +391,10 @@ fn alphabet(tier: Tier, n_items: usize) -> Vec<Op> {
     for k in 1..n_items as u64 {
         ops.push(Op::Truncate(k));
     }
+    if n_items >= 2 {
+        ops.push(Op::Retrieve(1));
+        ops.push(Op::Retrieve(n_items as u64 - 1));
+    }
     ops
 }
 
@@ -375,7 +411,7 @@ fn explore_one(ctx: &Ctx, compression: bool, hist: Vec<Op>) -> Expanded {
     let o = replay_files(&dir.join("live"), compression, &hist);
     report.transitions += hist.len() as u64;
     report.traces += 1;
-    let state_fp = fp(&(&o.disk, &o.mark, compression));
+    let state_fp = fp(&(&o.disk, &o.mark, compression, o.pending_read, &o.mem));
     if let Some((kind, msg)) = &o.problem {
         report.violation(
             format!("files/{kind}"),
@@ -636,7 +672,7 @@ fn freezer_one(ctx: &Ctx, chain: &[BlockView], hist: &[FOp]) -> Report {
     // crash images of the last freeze: the tail written by it, cut everywhere
     let disk = read_disk(&dir);
     let reference: Vec<Vec<u8>> = (1..=n_ref).map(|i| chain[i as usize].data().as_slice().to_vec()).collect();
-    let o = Outcome { disk, mark, reference, problem: None, last_is_append: true };
+    let o = Outcome { disk, mark, reference, problem: None, last_is_append: true, pending_read: None, mem: Default::default() };
     let cuts = crash_cuts(&o);
     let crash_dir = thread_dir(ctx, "c09f").join("crash");
     for cut in &cuts {
@@ -718,7 +754,7 @@ pub fn meta(tier: Tier) -> Meta {
         assumptions: &[
             "only the head data file and INDEX are torn (as the property's quantifier states); older data files are intact",
             "truncate and reopen are treated as sync points",
-            "state deduplication by disk image assumes the in-memory handle cache always holds every existing file id (preopen + put on create)",
+            "states are deduplicated by on-disk image + last-synced marks + the live object's in-memory state (item count, head id/bytes/cursor, tail id, cached file ids, read through a verif hook): two histories are merged only if all of these agree",
         ],
         bounds: json!({
             "max_file_size": MAX_FILE,
